@@ -186,7 +186,9 @@ def c02(tr, acc, case):
                     acc.violation({"mech": "routing_mismatch", "etype_accepted": bool(amap.get(etype)), "targeted": target is not None},
                                   f"TickAddEvent {etype} uid={uid} target={target}: queue/in-progress delta {dict(got)} != expected {dict(exp)}", case)
             # unhandled reporting
-            handled = bool(exp) or bool(rematch) or bool(foreign)
+            handled = bool(exp)
+            if (rematch or foreign) and got != exp:
+                handled = True  # already reported above; do not double-report through the UnhandledEvent rule
             unh = [p for p in t["pubs"] if p["type"] == "UnhandledEvent"]
             if not handled and etype not in input_required and not is_retry:
                 acc.hit("unhandled_expected")
@@ -428,3 +430,73 @@ def c35(tr, acc, case):
             acc.violation({"mech": "input_required_published_twice"}, f"InputRequiredEvent uid={r['uid']} published {n} times", case)
         if n == 0 and tr.consumer_done is not None and (tr.quiescent and not ended):
             acc.violation({"mech": "input_required_not_published"}, f"InputRequiredEvent uid={r['uid']} returned by {r['step']} never reached the stream", case)
+
+
+# ------------------------------------------------------------------ C10
+def c10(tr, acc, case):
+    resumed = bool(case.get("phase") == "resumed")
+    _acc = acc
+
+    class _A:  # adds the phase to every signature
+        def __getattr__(self, n):
+            return getattr(_acc, n)
+
+        def violation(self, sig, what, c):
+            sig = dict(sig)
+            sig["resumed"] = resumed
+            _acc.violation(sig, what, c)
+
+    acc = _A()
+    log = tr.rec.log
+    by_wid = defaultdict(lambda: {"ret": [], "timeout": [], "call": []})
+    for r in log:
+        if r["k"] == "wait_ret":
+            by_wid[r["wid"]]["ret"].append(r)
+        elif r["k"] == "wait_timeout":
+            by_wid[r["wid"]]["timeout"].append(r)
+        elif r["k"] == "wait_call":
+            by_wid[r["wid"]]["call"].append(r)
+    # when did the engine process matching events / timeouts for each waiter
+    for wid, d in by_wid.items():
+        acc.hit("waiter_eval")
+        if len(d["ret"]) > 1:
+            acc.violation({"mech": "wait_completed_twice"},
+                          f"wait {wid} returned an event {len(d['ret'])} times (uids {[r['got_uid'] for r in d['ret']]})", case)
+        for r in d["ret"]:
+            acc.hit("wait_result_eval")
+            if r["got_type"] != r["want"]:
+                acc.violation({"mech": "wait_result_wrong_type"}, f"wait {wid} wanted {r['want']} got {r['got_type']}", case)
+            bad = {k: (r["got_fields"].get(k), v) for k, v in r["req"].items() if r["got_fields"].get(k) != v}
+            if bad:
+                acc.violation({"mech": "wait_result_violates_requirements"},
+                              f"wait {wid} received event uid={r['got_uid']} with {bad} (got, required)", case)
+        if len(d["timeout"]) > 1:
+            acc.violation({"mech": "wait_timeout_raised_twice"}, f"wait {wid} raised TimeoutError {len(d['timeout'])} times", case)
+        if d["timeout"] and d["ret"]:
+            acc.violation({"mech": "wait_both_returned_and_timed_out"}, f"wait {wid} both returned an event and raised TimeoutError", case)
+        if d["timeout"]:
+            acc.hit("wait_timeout_seen")
+            # a matching event reduced while the waiter was registered and before its timeout tick
+            reg = None
+            for t in tr.ticks:
+                present = any(w[0] == wid for st in t["post"].values() for w in st["wait"])
+                if reg is None and present:
+                    reg = t["n"]
+                if reg is None:
+                    continue
+                if t["tick"] == "TickWaiterTimeout" and t.get("waiter_id") == wid:
+                    break
+                if t["tick"] == "TickAddEvent" and t["n"] > reg:
+                    for sname, st in t["pre"].items():
+                        if t.get("step") not in (None, sname):
+                            continue  # addressed to another step: not an event this waiter may take
+                        for w in st["wait"]:
+                            if w[0] == wid and not w[1] and not w[2] and (w[4] or not w[6]) and _matches(w, t["etype"], t.get("efields", {})):
+                                acc.violation({"mech": "timeout_despite_matching_event"},
+                                              f"wait {wid} raised TimeoutError although matching {t['etype']} uid={t['uid']} was processed before the timeout", case)
+    # waiter_event published once per waiter id
+    asks = Counter(e["uid"] for e in tr.stream if e["type"] in ("Ask", "Ask2") and isinstance(e.get("uid"), str) and e["uid"].startswith("ask:"))
+    for uid, n in asks.items():
+        acc.hit("waiter_event_eval")
+        if n > 1:
+            acc.violation({"mech": "waiter_event_published_twice"}, f"waiter_event {uid} published {n} times", case)
